@@ -380,6 +380,14 @@ extern "C" void h_lpf_haskeyword_c()
    KW(14, "s[ubject][   ]t[o]")
    KW(16, "s[uch][    ]t[hat]")
    KW(18, "s[.][    ]t[.]")
+   vp_cover(1);
+   free(b);
+}
+extern "C" void h_lpf_haskeyword_d()
+{
+   char* b = draw_text(true);
+   Ref r; r_copy(r, b, g_n);
+   int p = vp_int_in(0, LEN);
    KW(20, "lazy con[straints]")
    vp_cover(1);
    free(b);
@@ -422,14 +430,38 @@ extern "C" void h_lpf_haskeyword_pad_b()
    vp_cover(1);
    free(b);
 }
-extern "C" void h_lpf_haskeyword_pad_c()
+extern "C" void h_lpf_haskeyword_pad_c1()
 {
    char* b = draw_text();
    Ref r; r_copy(r, b, g_n);
    int p = vp_int_in(0, LEN);
    KWP(14, "s[ubject][   ]t[o]")
+   vp_cover(1);
+   free(b);
+}
+extern "C" void h_lpf_haskeyword_pad_c2()
+{
+   char* b = draw_text();
+   Ref r; r_copy(r, b, g_n);
+   int p = vp_int_in(0, LEN);
    KWP(16, "s[uch][    ]t[hat]")
+   vp_cover(1);
+   free(b);
+}
+extern "C" void h_lpf_haskeyword_pad_c3()
+{
+   char* b = draw_text();
+   Ref r; r_copy(r, b, g_n);
+   int p = vp_int_in(0, LEN);
    KWP(18, "s[.][    ]t[.]")
+   vp_cover(1);
+   free(b);
+}
+extern "C" void h_lpf_haskeyword_pad_d()
+{
+   char* b = draw_text();
+   Ref r; r_copy(r, b, g_n);
+   int p = vp_int_in(0, LEN);
    KWP(20, "lazy con[straints]")
    vp_cover(1);
    free(b);
